@@ -83,7 +83,7 @@ class Panoptica_Aggregator:
             out_file_path += ".tsv"  # add extension
 
         out_buffer_file: Path = Path(out_file_path).parent.joinpath(
-            "panoptica_aggregator_tmp.tsv"
+            Path(out_file_path).stem + "_panoptica_aggregator_tmp.tsv"
         )
         self.__output_buffer_file = out_buffer_file
 
